@@ -23,6 +23,12 @@ SEEDS = [
      {"mod_ok": 'sub helper {\n  set req.http.K = "v";\n}\n'}),
     ("included-with-lint-errors", 'include "mod_err";\nsub vcl_recv {\n  #FASTLY RECV\n  call helper;\n}\n',
      {"mod_err": 'sub helper {\n  set req.http.A = undefined.v;\n  error 1000;\n}\n'}),
+    ("syntax-included-first-of-two", 'include "mod_bad";\ninclude "mod_ok";\nsub vcl_recv {\n  #FASTLY RECV\n  set req.http.K = "v";\n}\n',
+     {"mod_bad": 'sub helper_b {\n  set req.http.K = ;\n}\n', "mod_ok": 'sub helper {\n  set req.http.K = "v";\n}\n'}),
+    ("syntax-included-second-of-two", 'include "mod_ok";\ninclude "mod_bad";\nsub vcl_recv {\n  #FASTLY RECV\n  set req.http.K = "v";\n}\n',
+     {"mod_bad": 'sub helper_b {\n  set req.http.K = ;\n}\n', "mod_ok": 'sub helper {\n  set req.http.K = "v";\n}\n'}),
+    ("syntax-included-nested", 'include "mod_outer";\nsub vcl_recv {\n  #FASTLY RECV\n  set req.http.K = "v";\n}\n',
+     {"mod_outer": 'include "mod_bad";\nsub helper {\n  set req.http.K = "v";\n}\n', "mod_bad": 'sub helper_b {\n  set req.http.K = ;\n}\n'}),
     ("include-not-found", 'include "nowhere";\nsub vcl_recv {\n  #FASTLY RECV\n}\n', {}),
     ("snippet-scope", '# @scope: recv\nset req.http.K = "v";\n', {}),
     ("snippet-scope-errors", '# @scope: deliver\nset req.http.A = undefined.v;\nerror 1000;\n', {}),
@@ -54,14 +60,26 @@ def random_case(rng, idx):
             n.lead.append(G.comment(rng.choice(G.MARKERS), "next-line", []))
         src = prog.render()
         mods = {}
-        if rng.random() < 0.25:
-            kind = rng.choice(["ok", "err", "bad"])
-            body = {"ok": 'sub helper_%d {\n  set req.http.K = "v";\n}\n' % idx,
-                    "err": 'sub helper_%d {\n  set req.http.A = undefined.v;\n}\n' % idx,
-                    "bad": 'sub helper_%d {\n  set req.http.K = ;\n}\n' % idx}[kind]
-            mods["mod_%d" % idx] = body
-            src = 'include "mod_%d";\n' % idx + src
-            return "gen-program-include-" + kind, src, mods
+        if rng.random() < 0.35:
+            # an include graph: 1-3 modules of independent kinds, included from main in a random order,
+            # sometimes nested (a module including a later one); the verdict must not depend on which
+            # of several includes is the broken one or on what is included after it
+            n = rng.randint(1, 3)
+            kinds = [rng.choice(["ok", "err", "bad"]) for _ in range(n)]
+            names = ["mod_%d_%d" % (idx, j) for j in range(n)]
+            top = list(range(n))
+            for j in range(n):
+                body = {"ok": 'sub helper_%d_%d {\n  set req.http.K = "v";\n}\n' % (idx, j),
+                        "err": 'sub helper_%d_%d {\n  set req.http.A = undefined.v;\n}\n' % (idx, j),
+                        "bad": 'sub helper_%d_%d {\n  set req.http.K = ;\n}\n' % (idx, j)}[kinds[j]]
+                if j + 1 < n and kinds[j] != "bad" and rng.random() < 0.3:
+                    body = 'include "%s";\n' % names[j + 1] + body
+                    if (j + 1) in top:
+                        top.remove(j + 1)
+                mods[names[j]] = body
+            rng.shuffle(top)
+            src = "".join('include "%s";\n' % names[j] for j in top) + src
+            return "gen-program-include-" + "+".join(kinds[j] for j in top) + ("-nested" if len(top) < n else ""), src, mods
         return "gen-program", src, mods
     if k < 0.6:
         # clean-ish program: only diagnostic-free statements
